@@ -25,11 +25,11 @@ EXTENDS Integers, Sequences, FiniteSets, TLC, Json
 Trace == ndJsonDeserialize("trace.ndjson")
 
 VARIABLES l,        \* cursor
-          scn, cfg, msgs, peers, subs,     \* current scenario
+          scn, cfg, msgs, peers, subs, subs2, t2,     \* current scenario (subs2 / t2: subscriptions and message names of the second topic)
           evs, vals, fwds, ihs, dls, prs, acts,   \* accumulated observations (each record carries its step s)
           pen       \* latest counters: sequence of [p, n]
 
-tvars == <<l, scn, cfg, msgs, peers, subs, evs, vals, fwds, ihs, dls, prs, acts, pen>>
+tvars == <<l, scn, cfg, msgs, peers, subs, subs2, t2, evs, vals, fwds, ihs, dls, prs, acts, pen>>
 
 P == INSTANCE IngestProps
 
@@ -45,13 +45,13 @@ SetSum(S, F(_)) == LET RECURSIVE Sm(_)
 
 VName(r) == IF r = 0 THEN "A" ELSE IF r = 1 THEN "R" ELSE IF r = 2 THEN "I" ELSE "U"
 
-TInit == /\ TLCSet(1, 0) /\ l = 1 /\ scn = -1 /\ cfg = [nv |-> 0, nsubs |-> 0, score |-> FALSE]
-         /\ msgs = {} /\ peers = {} /\ subs = {}
+TInit == /\ TLCSet(1, 0) /\ l = 1 /\ scn = -1 /\ cfg = [nv |-> 0, tv1 |-> 0, tv2 |-> 0, nsubs |-> 0, score |-> FALSE]
+         /\ msgs = {} /\ peers = {} /\ subs = {} /\ subs2 = {} /\ t2 = {}
          /\ evs = <<>> /\ vals = <<>> /\ fwds = <<>> /\ ihs = <<>> /\ dls = <<>> /\ prs = <<>> /\ acts = <<>> /\ pen = <<>>
 
 TReset ==
     /\ More /\ E.a = "reset"
-    /\ scn' = E.scn /\ cfg' = E.cfg /\ msgs' = Range(E.msgs) /\ peers' = Range(E.peers) /\ subs' = Range(E.subs)
+    /\ scn' = E.scn /\ cfg' = E.cfg /\ msgs' = Range(E.msgs) /\ peers' = Range(E.peers) /\ subs' = Range(E.subs) /\ subs2' = Range(E.subs2) /\ t2' = Range(E.t2)
     /\ evs' = <<>> /\ vals' = <<>> /\ fwds' = <<>> /\ ihs' = <<>> /\ dls' = <<>> /\ prs' = <<>> /\ acts' = <<>>
     /\ pen' = E.pen /\ Adv
 
@@ -59,6 +59,10 @@ Report(pred, m, what, info) ==
     PrintT(<<"VIOL", ToJson([scn |-> scn, line |-> l, pred |-> pred, m |-> m, what |-> what, info |-> info])>>)
 
 \* ------------------------------------------------------------------ per-message observations (at `end`)
+\* the validators that apply to m: every default validator plus the validator of m's OWN topic
+\* (cfg.tv1 / cfg.tv2 = number of the validator registered for the first / second topic, 0 = none)
+Appl(m)   == ((1..cfg.nv) \ {cfg.tv1, cfg.tv2}) \cup ({IF m \in t2 THEN cfg.tv2 ELSE cfg.tv1} \ {0})
+SubsOf(m) == IF m \in t2 THEN subs2 ELSE subs
 Calls(v, m)     == Count(vals, LAMBDA x : x.e = "call" /\ x.v = v /\ x.m = m)
 NCalls(m)       == Count(vals, LAMBDA x : x.e = "call" /\ x.m = m)
 NRets(m)        == Count(vals, LAMBDA x : x.e = "ret" /\ x.m = m)
@@ -68,8 +72,8 @@ LocalVerdicts(m) == {VName(x.r) : x \in {y \in Range(vals) : y.e = "ret" /\ y.m 
 NEv(k, m)       == Count(evs, LAMBDA x : x.k = k /\ x.m = m)
 RemotePass(m)   == \E x \in Range(evs) : x.k = "Validate" /\ x.m = m
 LocalPass(m)    == \/ \E x \in Range(vals) : x.e = "call" /\ x.m = m /\ x.local
-                   \/ cfg.nv = 0 /\ \E x \in Range(evs) : x.m = m /\ x.self /\ x.k \in {"Deliver", "Reject"}
-Skipped(m)      == \E v \in 1..cfg.nv : Calls(v, m) = 0          \* an applicable validator that was never invoked
+                   \/ Appl(m) = {} /\ \E x \in Range(evs) : x.m = m /\ x.self /\ x.k \in {"Deliver", "Reject"}
+Skipped(m)      == \E v \in Appl(m) : Calls(v, m) = 0          \* an applicable validator that was never invoked
 AnyReject(m)    == "R" \in Verdicts(m)
 Prescribed(m)   == P!Prescribed(Verdicts(m), Skipped(m))
 
@@ -107,7 +111,7 @@ PubRets(m)  == {x \in Range(prs) : x.m = m}
 \* ------------------------------------------------------------------ the predicates
 Judge(m) ==
     \* C02
-    /\ \A sb \in subs : IF NDeliv(sb, m) <= 1 THEN TRUE
+    /\ \A sb \in subs \cup subs2 : IF NDeliv(sb, m) <= 1 THEN TRUE
                         ELSE Report("P_C02_DeliverOnce", m, "delivered more than once to one subscription", [sub |-> sb, n |-> NDeliv(sb, m)])
     /\ \A v \in 1..cfg.nv : IF Calls(v, m) <= 1 THEN TRUE
                             ELSE Report("P_C02_ValidateOnce", m, "validator invoked more than once for one id", [v |-> v, n |-> Calls(v, m)])
@@ -118,14 +122,18 @@ Judge(m) ==
          ELSE Report("P_C02_LocalDup", m, "Publish of an id already seen did not return nil at once",
                      [step |-> s, rets |-> {[s |-> x.s, err |-> x.err] : x \in PubRets(m)}])
     \* C04
-    /\ IF OutN(m) > 0 => (\A v \in 1..cfg.nv : Calls(v, m) >= 1) /\ Verdicts(m) \subseteq {"A"} THEN TRUE
+    /\ \A v \in (1..cfg.nv) \ Appl(m) :
+         IF Calls(v, m) = 0 THEN TRUE
+         ELSE Report("P_C04_Applicable", m, "judged by a validator that does not apply to it (another topic's validator)",
+                     [v |-> v, n |-> Calls(v, m), own |-> Appl(m)])
+    /\ IF OutN(m) > 0 => (\A v \in Appl(m) : Calls(v, m) >= 1) /\ Verdicts(m) \subseteq {"A"} THEN TRUE
        ELSE Report("P_C04_OnlyIfAllAccept", m, "delivered / forwarded / announced although not every validator accepted",
                    [verdicts |-> Verdicts(m), skipped |-> Skipped(m), out |-> OutN(m)])
     /\ IF ((RemotePass(m) \/ LocalPass(m)) /\ Finished(m)) => ObsFinals(m) = {Prescribed(m)} THEN TRUE
        ELSE Report("P_C04_Outcome", m, "outcome differs from what the verdicts prescribe",
                    [prescribed |-> Prescribed(m), observed |-> ObsFinals(m), verdicts |-> Verdicts(m), skipped |-> Skipped(m)])
     /\ IF ((RemotePass(m) \/ LocalPass(m)) /\ Finished(m) /\ Prescribed(m) = "A")
-            => (\A sb \in subs : NDeliv(sb, m) >= 1) /\ (cfg.obs => NFwd(m) >= 1) THEN TRUE
+            => (\A sb \in SubsOf(m) : NDeliv(sb, m) >= 1) /\ (cfg.obs => NFwd(m) >= 1) THEN TRUE
        ELSE Report("P_C04_Outcome", m, "accepted by every validator but not delivered to every subscription and forwarded",
                    [prescribed |-> "A", observed |-> ObsFinals(m), verdicts |-> Verdicts(m), skipped |-> FALSE])
     /\ IF (LocalPass(m) /\ Finished(m) /\ P!Prescribed(LocalVerdicts(m), Skipped(m)) # "A")
@@ -154,7 +162,7 @@ PenStep ==
 
 TStep ==
     /\ More /\ E.a # "reset"
-    /\ Adv /\ UNCHANGED <<scn, cfg, msgs, peers, subs>>
+    /\ Adv /\ UNCHANGED <<scn, cfg, msgs, peers, subs, subs2, t2>>
     /\ evs' = evs \o E.ev /\ vals' = vals \o E.val /\ fwds' = fwds \o E.fwd /\ ihs' = ihs \o E.ih
     /\ dls' = dls \o E.dl /\ prs' = prs \o E.pr
     /\ acts' = Append(acts, [a |-> E.a, m |-> E.m, p |-> E.p, s |-> E.s])
